@@ -19,7 +19,7 @@ import (
 func TestMain(m *testing.M) { vp.Main(m) }
 
 // foldAlphabet is rich in simple-fold orbits with more than two members.
-var foldAlphabet = []rune("kKKsSſσςΣµμΜåÅÅǅǆǄθϑΘϴιͅιΙßẞiİıIaAzZ09-. éÉ世 ")
+var foldAlphabet = []rune("kKKsSſσςΣµμΜåÅÅǅǆǄθϑΘϴιͅιΙßẞiİıIaAzZ09-. éÉ世 \x00\x7f")
 
 // casedRunes is every rune below U+20000 that has a non-trivial simple-fold
 // orbit (about 2 800 runes: letters, but also Roman numerals, circled letters,
@@ -34,7 +34,7 @@ var casedRunes = func() (rs []rune) {
 }()
 
 // enumAlphabet is the sub-alphabet of the exhaustive enumeration.
-var enumAlphabet = []rune("kKKsSſσςaB1İ")
+var enumAlphabet = []rune("kKKsSſσςaB1İ\x00")
 
 // FoldCase is a haystack and a needle (valid UTF-8 without U+FFFD).
 type FoldCase struct {
@@ -201,7 +201,7 @@ func TestFoldEnumerate(t *testing.T) {
 	if vp.Thorough() {
 		maxHay = 5
 	}
-	enumFold(t, enumAlphabet, maxHay, "a 12-rune alphabet with 3-member fold orbits")
+	enumFold(t, enumAlphabet, maxHay, "a 13-rune alphabet with 3-member fold orbits and U+0000")
 	enumFold(t, confusables, maxHay-1, "the 12 ToLower/ToUpper-confusable and width-changing runes")
 }
 
